@@ -298,6 +298,44 @@ fn generate(rng: &mut Rng, property: &str, deep: bool) -> Scn {
             add_step_keyframe(rng, tl, &knobs);
         }
     }
+    // Siblings: a second timeline that differs from the first in one timing parameter only - the
+    // kind of pair that collides in a cache keyed on "the timing, more or less" - queried
+    // back-to-back at the same times, some of them far out.
+    let mut sibling_times: Vec<f32> = Vec::new();
+    if property == "C09" && pool.len() < 3 && rng.chance(0.12) {
+        if let ObjSpec::Single(first) = &pool[0] {
+            let mut a = first.clone();
+            let mut b = first.clone();
+            match rng.below(4) {
+                0 => {
+                    // endless against "as often as a u32 can count", with a cycle short enough
+                    // for the difference to be within reach
+                    a.duration = *rng.pick(&[0.003f32, 0.001, 0.0005]);
+                    b.duration = a.duration;
+                    a.repeat = Rep::Infinite;
+                    b.repeat = Rep::Times(u32::MAX);
+                    let beyond = a.delay as f64 + a.duration as f64 * 4_294_967_296.0;
+                    sibling_times.push((beyond * 1.5) as f32);
+                    sibling_times.push((beyond * 4.0) as f32);
+                }
+                1 => {
+                    a.repeat = Rep::None;
+                    b.repeat = Rep::Times(0);
+                }
+                2 => {
+                    b.reverse = !a.reverse;
+                }
+                _ => {
+                    b.delay = if a.delay == 0.0 { a.duration * 0.5 } else { 0.0 };
+                }
+            }
+            simmodel::gen::sanitize_total(&mut a);
+            simmodel::gen::sanitize_total(&mut b);
+            pool[0] = ObjSpec::Single(a);
+            pool.push(ObjSpec::Single(b));
+        }
+    }
+    let n_pool = pool.len();
     let n_slots = rng.range(1, 3) as usize;
     let slots: Vec<Vals> = (0..n_slots).map(|_| dirty_vals(rng, &knobs)).collect();
     // bookkeeping: which object indices are alive, and the spec index they descend from
@@ -393,6 +431,12 @@ fn generate(rng: &mut Rng, property: &str, deep: bool) -> Scn {
             },
         };
         let t = if t.is_finite() { t } else { 0.0 };
+        // (with siblings in the pool: sometimes one of the far-out times)
+        let (t, kind) = if !sibling_times.is_empty() && rng.chance(0.3) {
+            (*rng.pick(&sibling_times), "sibling_far_out")
+        } else {
+            (t, kind)
+        };
         last_t = t;
         ops.push((
             TOp::Update {
@@ -402,6 +446,20 @@ fn generate(rng: &mut Rng, property: &str, deep: bool) -> Scn {
             },
             kind,
         ));
+        // the same time on another live timeline right away
+        if alive.len() > 1 && rng.chance(if sibling_times.is_empty() { 0.08 } else { 0.6 }) {
+            let (other, _) = *rng.pick(&alive);
+            if other != obj {
+                ops.push((
+                    TOp::Update {
+                        obj: other,
+                        slot: rng.usize_below(n_slots),
+                        t,
+                    },
+                    "same_time_on_another_timeline",
+                ));
+            }
+        }
     }
     Scn { pool, slots, ops }
 }
